@@ -25,8 +25,8 @@ PARTIAL BY NATURE.  Kernel signal delivery, `signal.Notify`, SIGWINCH and the pt
   configuration (WithoutSignals) and is DYNAMIC: the ReleaseTerminal of an Exec sets it
   (`exRelCancel`), RestoreTerminal clears it (`exResReader`) - both on the event-loop goroutine,
   in the order pinned by the bridge facts of `Tea/Props/Bridge/C18.lean`.  The theorems about ignored
-  signals are statements about any state whose flag is set (`C18_ignored_partial`, part 1), the exact
-  value of the flag in every reachable state (part 2), programs configured with it (parts 3, 4), the
+  signals are statements about any state whose flag is set (`C18_ignored`, part 1), the exact
+  value of the flag in every reachable state (part 2), programs configured with it (part 3), the
   released phases of an Exec (`C18_ignored_while_released`) and the states after an Exec
   (`C18_signals_obeyed_after_exec`).  ReleaseTerminal / RestoreTerminal called by the PROGRAM from
   another goroutine (outside an Exec) are not modelled.
@@ -130,52 +130,64 @@ theorem C18_signal_run_returns (c : Config) (s : St) (hr : Reachable c s) (hsig 
 
 /-! ### 2. ignored signals do not end the program -/
 
-/- FALSE in the model with Exec, parts (2) and (3): `ignoreSignals` is written by ReleaseTerminal (1)
-and RestoreTerminal (0), whatever the configuration said.
+/- The first version of this theorem (model without Exec) had as part (2)
 
-    theorem C18_ignored :
-        (∀ (s : St) (b : Bool), s.ignoreSignals = true → step s (.signal b) = none) ∧
-        (∀ (c : Config) (s : St), Reachable c s → s.ignoreSignals = c.ignoreSignals) ∧
-        (∀ (c : Config) (s : St), c.ignoreSignals = true → Reachable c s →
-          (∀ b, step s (.signal b) = none) ∧ (∀ b, s.sig ≠ .sending b) ∧ step s .elRecvSig = none)
+        (∀ (c : Config) (s : St), Reachable c s → s.ignoreSignals = c.ignoreSignals)
 
-  counterexample to (2): any program, while the command of an Exec runs: the flag is set.
-  counterexample to (2) and (3), a FINDING about the code: a program started with WithoutSignals
-  runs an Exec; `RestoreTerminal` stores 0 in `p.ignoreSignals`; from then on SIGINT ends the
-  program with ErrInterrupted (example in section 7: `cfgIgnoreExec`). -/
+  which is false once Exec is in the model: while the terminal is released the flag is set in every
+  program (part (2) below says exactly when).  With the model of RestoreTerminal BEFORE ITS REPAIR
+  (`stepOld`: `ignoreSignals := false` unconditionally) part (3) was false as well - a WithoutSignals
+  program obeyed SIGINT / SIGTERM after its first Exec; that was a defect of the Go code, found
+  here, confirmed on the real code and repaired (`if !p.withoutSignals { … }`).  The run that shows
+  it is kept, machine-checked against the old step, in section 7 (`cfgIgnoreExec`). -/
 
 /-- **IGNORED.**  (1) In ANY state whose ignore flag is set, a signal taken by the handler
 changes nothing at all: the step does not exist (`handleSignals` drops the signal and keeps
 waiting).  (2) The flag, exactly, in every reachable state of every program: it is set iff the
-terminal is released by an Exec in progress, or a release was never followed by a restore
-(`releaseStuck`), or no RestoreTerminal has run yet and the program was configured to ignore
-signals; in a program that never Execs it is the one of the configuration.  (3) So in a
-program configured to ignore signals (WithoutSignals), in every reachable state in which no
-RestoreTerminal has run yet - every reachable state, if the program never Execs -: no signal step
-exists, the handler never holds a signal to forward, and the loop never receives one. -/
-theorem C18_ignored_partial :
+program was configured to ignore signals (WithoutSignals), or the terminal is released by an Exec in
+progress, or a release was never followed by a restore (`releaseStuck`).  (3) So in a program
+configured to ignore signals, in EVERY reachable state - before, during and after any number of
+Execs -: the flag is set, no signal step exists, the handler never holds a signal to forward, the
+loop never receives one, and in every run from there neither a signal step nor the loop's receiving
+a signal ever occurs: no signal ever ends the program. -/
+theorem C18_ignored :
     (∀ (s : St) (b : Bool), s.ignoreSignals = true → step s (.signal b) = none) ∧
     (∀ (c : Config) (s : St), Reachable c s →
-      s.ignoreSignals = (s.el.released || s.releaseStuck || (!s.restoredOnce && c.ignoreSignals))) ∧
-    (∀ (c : Config) (s : St), SendKind.exec ∉ c.senders → Reachable c s →
-      s.ignoreSignals = c.ignoreSignals ∧ s.restoredOnce = false) ∧
-    (∀ (c : Config) (s : St), c.ignoreSignals = true → Reachable c s → s.restoredOnce = false →
-      (∀ b, step s (.signal b) = none) ∧ (∀ b, s.sig ≠ .sending b) ∧ step s .elRecvSig = none) := by
+      s.ignoreSignals = (c.ignoreSignals || s.el.released || s.releaseStuck)) ∧
+    (∀ (c : Config) (s : St), c.ignoreSignals = true → Reachable c s →
+      s.ignoreSignals = true ∧
+      (∀ b, step s (.signal b) = none) ∧ (∀ b, s.sig ≠ .sending b) ∧ step s .elRecvSig = none ∧
+      (∀ ls s', runLabels s ls = some s' → Label.elRecvSig ∉ ls ∧ ∀ b, Label.signal b ∉ ls)) := by
   have p1 : ∀ (s : St) (b : Bool), s.ignoreSignals = true → step s (.signal b) = none := by
     intro s b h
     simp [step, h]
-  refine ⟨p1, fun c s hr => inv_sig hr, ?_, ?_⟩
-  · intro c s hc hr
-    obtain ⟨_, h2, h3, h4⟩ := inv_noexec hc hr
-    refine ⟨?_, h3⟩
-    rw [inv_sig hr, h3, h4]
-    cases hel : s.el <;> simp_all [ElPc.inExec, ElPc.released]
-  · intro c s hc hr hno
-    have hns := inv_ignored_not_sending hc hr hno
-    refine ⟨fun b => p1 s b (by rw [inv_sig hr, hno, hc]; simp), hns, ?_⟩
+  have p3 : ∀ (c : Config) (s : St), c.ignoreSignals = true → Reachable c s →
+      s.ignoreSignals = true ∧ (∀ b, step s (.signal b) = none) ∧ (∀ b, s.sig ≠ .sending b) ∧
+      step s .elRecvSig = none := by
+    intro c s hc hr
+    have hig : s.ignoreSignals = true := by rw [inv_sig hr, hc]; rfl
+    have hns := inv_ignored_not_sending hc hr
+    refine ⟨hig, fun b => p1 s b hig, hns, ?_⟩
     cases hs : s.sig with
     | sending b => exact absurd hs (hns b)
     | _ => simp [step, hs]
+  refine ⟨p1, fun c s hr => inv_sig hr, fun c s hc hr => ?_⟩
+  obtain ⟨a1, a2, a3, a4⟩ := p3 c s hc hr
+  refine ⟨a1, a2, a3, a4, fun ls s' hrun => ?_⟩
+  have hav := run_avoids (c := c) (fun l => l = .elRecvSig ∨ ∃ b, l = .signal b)
+    (fun t ht l hl => by
+      obtain ⟨_, b2, _, b4⟩ := p3 c t hc ht
+      rcases hl with h | ⟨b, h⟩
+      · rw [h]; exact b4
+      · rw [h]; exact b2 b) ls hr hrun
+  exact ⟨fun h => hav _ h (Or.inl rfl), fun b h => hav _ h (Or.inr ⟨b, rfl⟩)⟩
+
+/-- in a program that never Execs the flag is the one of the configuration, in every reachable state -/
+theorem C18_flag_without_exec (c : Config) (s : St) (hc : SendKind.exec ∉ c.senders)
+    (hr : Reachable c s) : s.ignoreSignals = c.ignoreSignals := by
+  obtain ⟨_, h2, h4⟩ := inv_noexec hc hr
+  rw [inv_sig hr, h4]
+  cases hel : s.el <;> simp_all [ElPc.inExec, ElPc.released]
 
 /-- the phases of an Exec in which the terminal is released -/
 theorem released_def (e : ElPc) : e.released =
@@ -196,30 +208,34 @@ RestoreTerminal). -/
 theorem C18_ignored_while_released (c : Config) (s : St) (hr : Reachable c s) :
     (s.el.released = true → s.ignoreSignals = true ∧ ∀ int, step s (.signal int) = none) ∧
     (c.ignoreSignals = false → (s.ignoreSignals = true ↔ (s.el.released = true ∨ s.releaseStuck = true))) ∧
-    (c.ignoreSignals = false → s.el.inExec = false → s.releaseStuck = false → s.ignoreSignals = false) ∧
+    (s.el.inExec = false → s.releaseStuck = false → s.ignoreSignals = c.ignoreSignals) ∧
     (∀ l s', step s l = some s' → s'.releaseStuck = true →
       s.releaseStuck = true ∨ l = .execReleaseFails ∨ l = .execCmdPanics) := by
   have hig := inv_sig hr
-  refine ⟨fun h => ?_, fun hc => ?_, fun hc hx hst => ?_, fun l s' hs h => releaseStuck_origin hs h⟩
+  refine ⟨fun h => ?_, fun hc => ?_, fun hx hst => ?_, fun l s' hs h => releaseStuck_origin hs h⟩
   · have : s.ignoreSignals = true := by rw [hig, h]; simp
     exact ⟨this, fun int => by simp [step, this]⟩
   · rw [hig, hc]; simp
   · have : s.el.released = false := by
       cases hel : s.el <;> simp_all [ElPc.inExec, ElPc.released]
-    rw [hig, hc, this, hst]; simp
+    rw [hig, this, hst]; simp
 
-/-- **SIGNALS ARE OBEYED AGAIN AFTER AN EXEC.**  (1) RestoreTerminal's first step clears the flag:
-with a handler waiting, both signal steps are enabled again at once.  (2) In every reachable state
-after a RestoreTerminal (`restoredOnce`) whose loop is not inside a released phase and with no
-release stuck, the flag is clear - whatever the configuration said.  (3) In particular, once the
-loop is back at its `select` with the handler waiting, the conclusions of `C18_sigint` and
+/-- **AFTER AN EXEC THE PROGRAM TREATS SIGNALS AS IT WAS CONFIGURED TO.**  (1) RestoreTerminal's first
+step puts the flag back to the value of the configuration (`if !p.withoutSignals { store 0 }`): in a
+program that obeys signals, with a handler waiting, both signal steps are enabled again at once; in
+a WithoutSignals program they stay disabled.  (2) In every reachable state whose loop is not inside a
+released phase and with no release stuck - before the first Exec, between two Execs, after the
+last - the flag is the one of the configuration.  (3) In particular, in a program that obeys signals,
+once the loop is back at its `select` with the handler waiting, the conclusions of `C18_sigint` and
 `C18_sigterm` hold from there: SIGINT ends the program with ErrInterrupted, SIGTERM like a quit,
 terminal restored. -/
 theorem C18_signals_obeyed_after_exec (c : Config) (s : St) (hr : Reachable c s) :
     (∀ s', step s .exResReader = some s' →
-      s'.ignoreSignals = false ∧ (s'.sig = .waiting → ∀ int, (step s' (.signal int)).isSome = true)) ∧
-    (s.restoredOnce = true → s.releaseStuck = false → s.el.released = false → s.ignoreSignals = false) ∧
-    (s.restoredOnce = true → s.releaseStuck = false → s.el = .select → s.sig = .waiting →
+      s'.ignoreSignals = c.ignoreSignals ∧
+      (c.ignoreSignals = false → s'.sig = .waiting → ∀ int, (step s' (.signal int)).isSome = true) ∧
+      (c.ignoreSignals = true → ∀ int, step s' (.signal int) = none)) ∧
+    (s.releaseStuck = false → s.el.released = false → s.ignoreSignals = c.ignoreSignals) ∧
+    (c.ignoreSignals = false → s.releaseStuck = false → s.el = .select → s.sig = .waiting →
       (∃ s', runLabels s [.signal true, .elRecvSig] = some s' ∧ s'.el = .exited .interrupt ∧
         s'.sig = .exited ∧ Terminating s' ∧
         ∀ ls s'', runLabels s' ls = some s'' →
@@ -234,14 +250,14 @@ theorem C18_signals_obeyed_after_exec (c : Config) (s : St) (hr : Reachable c s)
             s3.runErr = (if s''.ctxDone = true then .killed else .nil)) ∧
           (s''.runPc = .returned → 1 ≤ s''.restores))) := by
   have hig := inv_sig hr
-  have p2 : s.restoredOnce = true → s.releaseStuck = false → s.el.released = false →
-      s.ignoreSignals = false := by
-    intro h1 h2 h3
-    rw [hig, h1, h2, h3]; simp
-  refine ⟨fun s' hs => ?_, p2, fun h1 h2 hel hsig => ?_⟩
-  · obtain ⟨a, _, _, _⟩ := exResReader_signals hs
-    exact ⟨a, fun hw int => by simp [step, hw, a]⟩
-  · have hign := p2 h1 h2 (by rw [hel]; rfl)
+  have p2 : s.releaseStuck = false → s.el.released = false → s.ignoreSignals = c.ignoreSignals := by
+    intro h2 h3
+    rw [hig, h2, h3]; simp
+  refine ⟨fun s' hs => ?_, p2, fun hc h2 hel hsig => ?_⟩
+  · obtain ⟨a, _, _⟩ := exResReader_signals hs
+    rw [inv_withoutSignals hr] at a
+    refine ⟨a, fun hc hw int => by simp [step, hw, a, hc], fun hc int => by simp [step, a, hc]⟩
+  · have hign : s.ignoreSignals = false := by rw [p2 h2 (by rw [hel]; rfl), hc]
     exact ⟨C18_sigint c s hr hsig hign hel, C18_sigterm c s hr hsig hign hel⟩
 
 /-- ... and ignoring signals does not make the handler goroutine an obstacle to shutdown: it
@@ -428,21 +444,41 @@ example : (step (init cfgIgnore) (.signal true)).isSome = false ∧
 /-- the program of `cfgIgnore` (WithoutSignals) with an Exec message -/
 def cfgIgnoreExec : Config := { cfgIgnore with senders := [.exec] }
 
-/-- THE FINDING: WithoutSignals is forgotten by an Exec.  Before the Exec no signal step exists;
-while the command runs neither; after RestoreTerminal `ignoreSignals` is 0: SIGINT is taken and
-ends the program with ErrInterrupted -/
+/-- THE REPAIRED DEFECT, against the step function BEFORE the repair (`stepOld`: RestoreTerminal
+stores 0 in `ignoreSignals` unconditionally).  WithoutSignals, one Exec: before the Exec no signal
+step exists; while the command runs neither; after RestoreTerminal the flag is 0: SIGINT is taken
+and ends the program with ErrInterrupted. -/
 example :
-    (step (init cfgIgnoreExec) (.signal true)).isSome = false ∧
-    (runLabels (init cfgIgnoreExec) ([.sendCall 0] ++ (execSchedule 0).take 5)).map
-      (fun s => (s.el, s.ignoreSignals, (step s (.signal true)).isSome)) = some (.execCmd, true, false) ∧
-    (runLabels (init cfgIgnoreExec)
+    (stepOld (init cfgIgnoreExec) (.signal true)).isSome = false ∧
+    (runLabelsOld (init cfgIgnoreExec) ([.sendCall 0] ++ (execSchedule 0).take 5)).map
+      (fun s => (s.el, s.ignoreSignals, (stepOld s (.signal true)).isSome)) = some (.execCmd, true, false) ∧
+    (runLabelsOld (init cfgIgnoreExec)
       ([.sendCall 0] ++ execSchedule 0 ++ [.callbackReturns, .elCmdHandOver, .viewReturns])).map
-      (fun s => (s.el, s.ignoreSignals, (step s (.signal true)).isSome)) = some (.select, false, true) ∧
-    (runLabels (init cfgIgnoreExec)
+      (fun s => (s.el, s.ignoreSignals, (stepOld s (.signal true)).isSome)) = some (.select, false, true) ∧
+    (runLabelsOld (init cfgIgnoreExec)
       ([.sendCall 0] ++ execSchedule 0 ++ [.callbackReturns, .elCmdHandOver, .viewReturns] ++
        [.signal true, .elRecvSig, .runTail, .shCancel none, .dispExit, .resizeExit, .shHandlers none,
         .shReader none, .shRenderer none, .shRestore none, .runReturn])).map obs
       = some (.returned, .interrupted, 2, true) := by decide
+
+/-- ... and with the repaired RestoreTerminal (`step`): the same program, the same Exec - the flag is
+set before, during and after it, no signal step exists at any of the ten points nor back at the
+`select`, and the run above is rejected at its `signal true` -/
+example :
+    ((List.range 10).map (fun k =>
+      (runLabels (init cfgIgnoreExec) ([.sendCall 0] ++ (execSchedule 0).take k)).map
+        (fun s => (s.ignoreSignals, (step s (.signal true)).isSome, (step s (.signal false)).isSome))))
+      = List.replicate 10 (some (true, false, false)) ∧
+    (runLabels (init cfgIgnoreExec)
+      ([.sendCall 0] ++ execSchedule 0 ++ [.callbackReturns, .elCmdHandOver, .viewReturns])).map
+      (fun s => (s.el, s.ignoreSignals, (step s (.signal true)).isSome)) = some (.select, true, false) ∧
+    (runLabels (init cfgIgnoreExec)
+      ([.sendCall 0] ++ execSchedule 0 ++ [.callbackReturns, .elCmdHandOver, .viewReturns] ++
+       [.signal true])).isSome = false := by decide
+
+/-- for a program that obeys signals the repair changes nothing: the old step is the step -/
+example (s : St) (h : s.withoutSignals = false) (l : Label) : stepOld s l = step s l :=
+  stepOld_eq_step h l
 
 /-- the same Exec in the program that obeys signals: SIGINT and SIGTERM are dropped while the terminal
 is released (every point from `exRelCancel` to the command's return), obeyed before and after -/
